@@ -9,6 +9,8 @@ import (
 
 	"hop.computer/hop/authkeys"
 	"hop.computer/hop/certs"
+	"hop.computer/hop/config"
+	"hop.computer/hop/hopserver"
 	"hop.computer/hop/keys"
 	"hop.computer/hop/transport"
 )
@@ -131,6 +133,57 @@ func StartServer(r *Run, n *Net, o ServerOpts) *TServer {
 	ts.Srv = srv
 	go func() { ts.Serve <- srv.Serve() }()
 	return ts
+}
+
+// StartServerViaHopServer builds the transport server the way a deployment does: from a config.ServerConfig
+// through the REAL hopserver.NewHopServer (its socket is the simulated one, see the VerifListen seam).  The
+// client-verification policy is whatever the constructor derives from policy: 0 CA store, 1 authorized keys
+// only, 2 both, 3 skip verification.  It returns nil if the seam is not available.
+func StartServerViaHopServer(r *Run, n *Net, o ServerOpts, policy int, caCerts []*certs.Certificate) (*TServer, *hopserver.HopServer) {
+	if !hopserver.VerifListenPatched {
+		return nil, nil
+	}
+	if o.PKI == nil {
+		o.PKI = NewPKI("srv")
+	}
+	if o.Name == "" {
+		o.Name = "server.sim"
+	}
+	if o.Addr == nil {
+		o.Addr = Addr(1, 77)
+	}
+	if o.HSTimeout == 0 {
+		o.HSTimeout = 5 * time.Second
+	}
+	ts := &TServer{Addr: o.Addr, PKI: o.PKI, Name: certs.DNSName(o.Name), Serve: make(chan error, 1)}
+	ts.Key = keys.GenerateNewX25519KeyPair()
+	kem, err := keys.GenerateKEMKeyPair(cryptorand.Reader)
+	must(err)
+	ts.KEM = kem
+	ts.Leaf = o.PKI.Leaf(ts.Key.Public, 24*time.Hour, ts.Name, certs.RawStringName(o.Name))
+	ts.EP = n.Listen("server", o.Addr, nil)
+	sc := &config.ServerConfig{ListenAddress: o.Addr.String(), HandshakeTimeout: o.HSTimeout,
+		Key: ts.Key, KEMKey: ts.KEM, Certificate: ts.Leaf, Intermediate: o.PKI.Int}
+	if o.Hidden {
+		sc.HiddenModeVHostNames = []string{o.Name}
+	}
+	switch policy {
+	case 0:
+		sc.CACerts = caCerts
+	case 1:
+		sc.DisableCertificateValidation, sc.EnableAuthorizedKeys = true, true
+	case 2:
+		sc.CACerts, sc.EnableAuthorizedKeys = caCerts, true
+	default:
+		sc.InsecureSkipVerify = true
+	}
+	hopserver.VerifListen = func(string) (transport.UDPLike, error) { return ts.EP, nil }
+	hs, err := hopserver.NewHopServer(sc)
+	hopserver.VerifListen = nil
+	must(err)
+	ts.Srv = hs.Server
+	go func() { ts.Serve <- ts.Srv.Serve() }()
+	return ts, hs
 }
 
 // TClient is a real transport.Client on the simulated network.
